@@ -5,6 +5,7 @@ import Nstd.Life.LemmasSrc
 import Nstd.Life.LemmasBlk
 import Nstd.Life.LemmasFault
 import Nstd.Life.LemmasCopy
+import Nstd.Life.LemmasCopyNode
 import Nstd.Life.LemmasSetSelf
 /-
   Property theorems of the Life area.
@@ -111,10 +112,19 @@ theorem copy_equal_array (ops : List Op) (v w : Nat) (hv : v ≤ 1) (hw : w ≤ 
     absArr (step (run init ops) (.assign ⟨.A, v⟩ w)) v = absArr (run init ops) w :=
   Copy.copy_equal_array ops v w hv hw hne
 
-/- OPEN (not proved here; covered by the correspondence run and the Python reference only):
-   `copy_equal_node` for the keyed kinds Map, MultiMap, HashMap, HashSet:
-     absNode (step st (.copy c w)) c = absNode st ⟨c.k, w⟩   (and for `assign`)  for every reachable st.
-   It needs the ordering / uniqueness of the keys of the source, invariants that are the subject of C01/C02. -/
+/-- C04 `copy_equal` (List, Map, MultiMap, HashMap, HashSet): right after copy construction `B b(a)` and after
+    assignment `b = a` (b ≠ a) the destination has exactly the contents (keys and values, in iteration order)
+    of the source, in every reachable state.  (For the keyed kinds this rests on `keys_ok` below.) -/
+theorem copy_equal_node (ops : List Op) (c : Var) (w : Nat) (hc : c.valid = true) (hp : c.k.isPool = false)
+    (hw : w ≤ 1) (hne : c.v ≠ w) :
+    absNode (step (run init ops) (.copy c w)) c = absNode (run init ops) ⟨c.k, w⟩ ∧
+    absNode (step (run init ops) (.assign c w)) c = absNode (run init ops) ⟨c.k, w⟩ :=
+  Copy.copy_equal_node ops c w hc hp hw hne
+
+/-- in every reachable state of the model the keys of a Map are strictly increasing, those of a MultiMap
+    non-decreasing, those of HashMap / HashSet / PoolMap pairwise different (an invariant of this model needed for
+    `copy_equal_node`; the corresponding facts about the real trees and hash tables are C01/C02) -/
+theorem keys_ok (ops : List Op) : Copy.KeysOk (run init ops) := Copy.keysOk_reach ops
 
 -- C04: self arguments behave as if copied first ------------------------------------------------------------------
 
